@@ -2,9 +2,8 @@
 #![allow(unused)]
 // unit `graph`: core/graph.rs under contract (C03, C09).  Generated per run from /repo by vfw; see DESIGN.md.
 use vstd::prelude::*;
-use std::collections::{HashSet, VecDeque};
+use std::collections::VecDeque;
 verus! {
-broadcast use vstd::std_specs::hash::group_hash_axioms;
 //!include prelude/std_gaps.rs
 //!include prelude/keymap.rs
 
